@@ -11,11 +11,47 @@ class C07(CacheProp):
             "boundaries, reads before and after sweeps; Get/GetTTL/IterValues compared with the machine and checked against "
             "the per-value expiration instant; non-trivial = an eviction, rejection or blocked call occurred")
 
+    def gen(self, rng, n, ctx):
+        cases = cachegen.gen_cases(rng, n * 5 // 6, ctx, self.profiles)
+        pd = ctx.probe_data or {"item_size": 56, "start": cachegen.START_DEFAULT}
+        g = cachegen.Gen(rng, pd)
+        for j in range(n - len(cases)):
+            # a TTL replaced by a longer or by no TTL while the sweep already holds the key's old bucket (the write comes
+            # from the OnEvict callback of another key of that bucket): the TTL alone must not hide the new item
+            bdur = rng.choice([1, 5])
+            h1, h2 = cachegen.mix(400 + j), cachegen.mix(500 + j)
+            ttl1 = rng.choice([1, 10 ** 9, bdur * 10 ** 9])
+            new_ttl = rng.choice([0, 0, 3600 * 10 ** 9])
+            ops = [["set", h1, 10, 11, 30, ttl1], ["set", h2, 20, 12, 30, ttl1], ["tok"], ["tok"],
+                   ["tick", rng.choice([2, 6, 11]) * bdur * 10 ** 9],
+                   ["sweeprw", h1, 10, h2, 20, 102, 30, new_ttl], ["tok"],
+                   ["get", h1, 10], ["get", h2, 20], ["tick", rng.choice([1, 3, 20]) * bdur * 10 ** 9], ["sweep"],
+                   ["get", h1, 10], ["get", h2, 20], ["iter"]]
+            cases.append(cachegen.Case("rw%d" % j, "cache", g.header(1000, 8, True, True, 0, bdur), ops,
+                                       tags=["profile:sweeprw"]))
+        return cases
+
     def oracle(self, case, il):
         fails = []
         tr = cachegen.Trace(case, il)
+        rewritten = None     # (key hash, value, deadline or None) written from inside the sweep
         for st in tr.steps:
             op, res, now = st["op"], st["res"], st["now"]
+            if op[0] == "sweeprw":
+                rw = [t for t in st["raw"].split() if t.startswith("rwset:")]
+                if rw and rw[0].endswith(":true"):
+                    first = rw[0].split(":")[1]
+                    other = op[3] if first == op[1] else op[1]
+                    ttl = int(op[7])
+                    rewritten = (other, int(op[5]), None if ttl == 0 else now + ttl)
+            if op[0] in ("set", "del", "clear", "close") and rewritten and (len(op) < 2 or op[1] == rewritten[0]):
+                rewritten = None
+            if op[0] == "get" and rewritten and op[1] == rewritten[0] and (rewritten[2] is None or now < rewritten[2]):
+                if res != [str(rewritten[1]), "true"]:
+                    fails.append("op %d: Get(%s) returned %s: value %d, written with %s while the sweep held the key's old "
+                                 "bucket, is hidden before its expiration" % (
+                                     st["n"], op[1], " ".join(res), rewritten[1],
+                                     "no TTL" if rewritten[2] is None else "a later expiration"))
             if op[0] == "set" and int(op[5]) < 0 and res[:1] != ["false"]:
                 fails.append("op %d: SetWithTTL with negative ttl returned %s" % (st["n"], res))
             if op[0] == "get" and res[1:2] == ["true"]:
